@@ -93,6 +93,27 @@ type fnRes struct {
 // from a local table by a computed column, say) but R16.5 has followed that function over its whole input domain and
 // found the stated index — a number 0..8 — every time: the table's result is taken ("TABLE-R16.5" in the evidence).
 func (e *rangeEngine) refineByTable(caller, callee *ssa.Function, args []aval) []aval {
+	if fname(callee) == "SolarUtil.GetDaysOfMonth" && len(args) == 2 {
+		// the month NewSolar hands to the month-length table, when its validation is not visible to intervals: on every
+		// walk of R04.8's table (months -3..64 and far values among them) the call was reached with a month 1..12 only
+		top := caller
+		for top.Parent() != nil {
+			top = top.Parent()
+		}
+		if fname(top) != "calendar.NewSolar" || args[1].bot || (args[1].known() && args[1].lo() >= 1 && args[1].hi() <= 12) {
+			return args
+		}
+		if !e.c.solarTableRun {
+			e.c.solarTableRun = true
+			r04_8(e.c, newReport("C04"))
+		}
+		if e.c.solarTableMonthsOK {
+			if m := meetVal(args[1], rangeVal(1, 12)); !m.bot {
+				return []aval{args[0], m.withAx(args[1].ax | axBit("TABLE-R04.8"))}
+			}
+		}
+		return args
+	}
 	if fname(callee) != "calendar.NewNineStar" || len(args) != 1 {
 		return args
 	}
@@ -109,6 +130,37 @@ func (e *rangeEngine) refineByTable(caller, callee *ssa.Function, args []aval) [
 		}
 	}
 	return args
+}
+
+// refineFieldByTable: what NewSolar stores into a field it validates on its own, when intervals cannot see the
+// validation (range checks walked by a loop over a local table, say) but R04.8 has followed the constructor for every
+// value of that field from -3 to 64 and far values on both sides and found exactly the stated range accepted: the
+// table's result is taken ("TABLE-R04.8" in the evidence).
+func (e *rangeEngine) refineFieldByTable(key string, fn *ssa.Function, v aval) aval {
+	var lo, hi int64
+	found := false
+	for _, rg := range solarFieldRanges {
+		if rg.key == key {
+			lo, hi, found = rg.lo, rg.hi, true
+		}
+	}
+	top := fn
+	for top.Parent() != nil {
+		top = top.Parent()
+	}
+	if !found || fname(top) != "calendar.NewSolar" || v.bot || (v.known() && v.lo() >= lo && v.hi() <= hi) {
+		return v
+	}
+	if !e.c.solarTableRun {
+		e.c.solarTableRun = true
+		r04_8(e.c, newReport("C04"))
+	}
+	if e.c.solarTableOK {
+		if m := meetVal(v, rangeVal(lo, hi)); !m.bot {
+			return m.withAx(v.ax | axBit("TABLE-R04.8"))
+		}
+	}
+	return v
 }
 
 // siteOverrideFor: the axiom stated for calls of callee inside fn — or, when fn is an unexported helper (or function
@@ -336,6 +388,7 @@ func (e *rangeEngine) solve() {
 				fieldContrib[k] = map[*ssa.Function]aval{}
 			}
 			if v, ok := contrib[k]; ok {
+				v = e.refineFieldByTable(k, fn, v)
 				if count[fn] > 25 {
 					v = widenVal(fieldContrib[k][fn].orBot(), joinVal(fieldContrib[k][fn].orBot(), v))
 				}
@@ -515,7 +568,10 @@ func (e *rangeEngine) ctxRet(callee *ssa.Function, args []aval, lens map[int]int
 					switch y := ins.(type) {
 					case *ssa.Call:
 						if _, builtin := y.Common().Value.(*ssa.Builtin); !builtin {
-							ok = false
+							// comparisons of texts by the strings package have no effect and return no index
+							if sc := y.Common().StaticCallee(); sc == nil || sc.Pkg == nil || sc.Pkg.Pkg.Path() != "strings" {
+								ok = false
+							}
 						}
 					case *ssa.Store, *ssa.MapUpdate, *ssa.Go, *ssa.Defer:
 						ok = false
